@@ -50,6 +50,7 @@ func (c17) Plan(tier string, seed int64) []mon.Workload {
 	}
 	return []mon.Workload{
 		{Name: "tree-positions", N: a},
+		{Name: "big-positions", N: int64(len(c17BigKinds) * len(c17BigSizes)), Exhaustive: true},
 		{Name: "lookup", N: seqCount(3, c17TextLen(tier)), Exhaustive: true},
 		{Name: "error-positions", N: b},
 		{Name: "rendering", N: 2000},
@@ -383,6 +384,8 @@ func (k c17) Run(c *mon.Ctx, workload string, i int64) {
 		k.runLoadFault(c, i)
 	case "tree-positions":
 		k.runTree(c)
+	case "big-positions":
+		k.runBig(c, i)
 	case "lookup":
 		k.runLookup(c, k.lookupText(c, i))
 	case "error-positions":
@@ -502,6 +505,114 @@ func walkPair(a, b *gt.T, f func(a, b *gt.T)) {
 
 func (k c17) runTree(c *mon.Ctx) {
 	stmts, lay := k.treeCase(c)
+	k.checkTree(c, stmts, lay, 0)
+}
+
+// big-positions (exhaustive): the position tables on BIG texts - 254..65537
+// lines before the statements under test, a token 254..65537 bytes (ASCII and
+// multi-byte) wide in front of them on the same line, a raw string of that
+// many lines. Line numbers and byte columns on both sides of 2^8 and 2^16.
+var c17BigKinds = []string{"lines", "wide-ascii", "wide-multibyte", "raw-lines", "crlf-lines"}
+var c17BigSizes = []int{254, 255, 256, 257, 65534, 65535, 65536, 65537}
+
+func (k c17) runBig(c *mon.Ctx, i int64) {
+	kind := c17BigKinds[int(i)%len(c17BigKinds)]
+	n := c17BigSizes[int(i)/len(c17BigKinds)]
+	tail, _ := k.treeCase(c)
+	var stmts []*gt.T
+	from := 0
+	probe := func(pad *gt.T) *gt.T {
+		return gt.Assign("=", gt.Ident("z"), gt.List(pad, gt.Bin("+", gt.Ident("a"), gt.Bin("*", gt.Ident("b"), gt.Int(3))), gt.Call("f", gt.Ident("d"), gt.Str("s")), gt.Index("m", gt.Str("k"))))
+	}
+	prefix := ""
+	switch kind {
+	case "lines", "crlf-lines":
+		// the many lines in front are text only (no nodes to build or convert)
+		prefix = strings.Repeat("q = 1\n", n-2)
+		from = n - 2
+		stmts = append(stmts, probe(gt.Str("pad")))
+	case "wide-ascii":
+		stmts = append(stmts, probe(gt.Str(strings.Repeat("x", n-8))))
+	case "wide-multibyte":
+		stmts = append(stmts, probe(gt.Str(strings.Repeat("世", (n-8)/3)+strings.Repeat("y", (n-8)%3))))
+	case "raw-lines":
+		body := strings.Repeat("l\n", n-1)
+		stmts = append(stmts, probe(&gt.T{K: gt.KStr, S: body, Spell: "\"\"\"" + body + "\"\"\""}))
+	}
+	stmts = append(stmts, tail...)
+	c.Cell("big_position_cells", fmt.Sprintf("%s/%d", kind, n))
+	if prefix != "" {
+		k.checkTreeShift(c, stmts, prefix, from, kind == "crlf-lines")
+		return
+	}
+	k.checkTree(c, stmts, nil, 0)
+}
+
+// checkTreeShift: the statements are printed after a textual prefix of
+// `skip` one-line statements (optionally everything with CRLF line ends);
+// every position of the statements equals the printer's offset shifted by the
+// prefix (and by one byte per earlier line for CRLF).
+func (k c17) checkTreeShift(c *mon.Ctx, stmts []*gt.T, prefix string, skip int, crlf bool) {
+	tailSrc := gt.Print(stmts, nil)
+	full := prefix + tailSrc
+	if crlf {
+		full = strings.ReplaceAll(full, "\n", "\r\n")
+	}
+	o := drive.Parse("c17.p", full)
+	c.Eval(1)
+	if o.Panic != nil || o.Err != nil || o.Stderr != "" {
+		c.Count("not_parsed", 1)
+		return
+	}
+	if len(o.Stmts) != skip+len(stmts) {
+		c.Count("tree_differs_not_compared", 1)
+		return
+	}
+	got, err := gt.FromStmts(o.Stmts[skip:])
+	if err != nil || gt.DiffStmts(stmts, got) != "" {
+		c.Count("tree_differs_not_compared", 1)
+		return
+	}
+	c.Nontrivial(fmt.Sprint("shifted", len(full), crlf))
+	c.Count("big_texts_compared", 1)
+	for si := range stmts {
+		bad := ""
+		walkPair(stmts[si], got[si], func(g, p *gt.T) {
+			for _, key := range p.PosKeys() {
+				want, ok := g.Pos[key]
+				if bad != "" || key == "@StartPos" || !ok {
+					continue
+				}
+				pos, lc := p.Pos[key], p.LC[key]
+				if crlf {
+					want += strings.Count(tailSrc[:want], "\n") + skip
+				}
+				want += len(prefix)
+				c.Count("positions_compared", 1)
+				if pos != want {
+					bad = fmt.Sprintf("%s.%s of %s is offset %d, its token is at offset %d (text of %d bytes, %d lines before the statement)", g.K, key, g.Dump(), pos, want, len(full), skip)
+				} else if ln, col := drive.RefLnCol(full, pos); ln != lc[0] || col != lc[1] {
+					bad = fmt.Sprintf("%s.%s: offset %d is line %d column %d, stored %d:%d", g.K, key, pos, ln, col, lc[0], lc[1])
+				}
+			}
+		})
+		if bad != "" {
+			c.Violate("wrong-tree-position:big", bad, map[string]any{"source_tail": lastN(full, 300), "bytes": len(full), "crlf": crlf})
+			return
+		}
+	}
+}
+
+func lastN(s string, n int) string {
+	if len(s) > n {
+		return s[len(s)-n:]
+	}
+	return s
+}
+
+// checkTree parses the printed statements and compares every position field
+// of the statements from index `from` on with the printer's offsets.
+func (k c17) checkTree(c *mon.Ctx, stmts []*gt.T, lay *gt.Layout, from int) {
 	src := gt.Print(stmts, lay)
 	o := drive.Parse("c17.p", src)
 	c.Eval(1)
@@ -511,15 +622,27 @@ func (k c17) runTree(c *mon.Ctx) {
 		c.Count("not_parsed", 1)
 		return
 	}
-	got, err := gt.FromStmts(o.Stmts)
-	if err != nil || gt.DiffStmts(stmts, got) != "" {
+	if len(o.Stmts) != len(stmts) {
 		c.Count("tree_differs_not_compared", 1)
 		return
 	}
-	c.Nontrivial(src)
-	for si := range stmts {
+	// only the statements under test are converted (a prefix of 65 536
+	// statements is there for its line breaks)
+	got, err := gt.FromStmts(o.Stmts[from:])
+	if err != nil || gt.DiffStmts(stmts[from:], got) != "" {
+		c.Count("tree_differs_not_compared", 1)
+		return
+	}
+	if len(src) > 2000 {
+		info = map[string]any{"source_tail": lastN(src, 300), "bytes": len(src)}
+		c.Nontrivial(fmt.Sprint("big", len(src), from))
+		c.Count("big_texts_compared", 1)
+	} else {
+		c.Nontrivial(src)
+	}
+	for si := from; si < len(stmts); si++ {
 		bad := ""
-		walkPair(stmts[si], got[si], func(g, p *gt.T) {
+		walkPair(stmts[si], got[si-from], func(g, p *gt.T) {
 			if bad != "" {
 				return
 			}
@@ -563,7 +686,7 @@ func (k c17) runTree(c *mon.Ctx) {
 				cl = "bad-start-pos"
 			}
 			fld := strings.SplitN(bad, " ", 2)[0]
-			c.Violate(cl+":"+fld, bad+"\n--- source\n"+src, info)
+			c.Violate(cl+":"+fld, bad+"\n--- source\n"+lastN(src, 2000), info)
 			return
 		}
 	}
